@@ -80,7 +80,7 @@ def _dec(t, s):
                     return pd.Series(_dec(v[1], s), index=_dec(v[0], s), dtype=v[2] if len(v) > 2 else None)
                 if k == '$frame':  # generic DataFrame: [index values, columns, rows]
                     import pandas as pd
-                    return pd.DataFrame(_dec(v[2], s), index=_dec(v[0], s), columns=_dec(v[1], s))
+                    return pd.DataFrame(_dec(v[2], s), index=_dec(v[0], s), columns=_dec(v[1], s), dtype=v[3] if len(v) > 3 else None)
                 if k == '$ts':
                     import pandas as pd
                     vals = _dec(v[1], s)
